@@ -100,9 +100,19 @@ theorem Xq_neg (cc : Crystal ℝ) (i j k : Int) : Xq cc (-i) (-j) (-k) = Xq cc i
 theorem Xq_scale (cc : Crystal ℝ) (n i j k : Int) : Xq cc (n * i) (n * j) (n * k) = (n : ℝ) ^ 2 * Xq cc i j k := by
   unfold Xq pow2; push_cast; ring
 
-theorem Xq_pos {cc : Crystal ℝ} (hv : validCell cc) {i j k : Int} (h0 : ¬ (i = 0 ∧ j = 0 ∧ k = 0)) : 0 < Xq cc i j k := by
+/-- a cell the geometry speaks about: positive edges and positive Gram determinant (no condition on the stored volume) -/
+def goodCell (cc : Crystal ℝ) : Prop := 0 < cc.a ∧ 0 < cc.b ∧ 0 < cc.c ∧ 0 < detC cc
+
+theorem validCell.good {cc : Crystal ℝ} (hv : validCell cc) : goodCell cc := by
   obtain ⟨ha, hb, hc, hD, _⟩ := hv
   simp only [lit0] at ha hb hc hD
+  exact ⟨ha, hb, hc, hD⟩
+
+theorem validCell.vol {cc : Crystal ℝ} (hv : validCell cc) : 0 < cc.volume := by
+  have := hv.2.2.2.2; simpa using this
+
+theorem Xq_pos' {cc : Crystal ℝ} (hg : goodCell cc) {i j k : Int} (h0 : ¬ (i = 0 ∧ j = 0 ∧ k = 0)) : 0 < Xq cc i j k := by
+  obtain ⟨ha, hb, hc, hD⟩ := hg
   rw [detC_real] at hD
   rw [Xq_cos]
   apply quad_pos _ _ _ _ _ _ (cosd_le_one _) hD
@@ -116,18 +126,25 @@ theorem Xq_pos {cc : Crystal ℝ} (hv : validCell cc) {i j k : Int} (h0 : ¬ (i 
   · exact_mod_cast h2.resolve_right hb.ne'
   · exact_mod_cast h3.resolve_right hc.ne'
 
-/-- on a valid cell the d-spacing is the value `dval`, and it is positive -/
-theorem dSpacing_valid (v : Variant) {cc : Crystal ℝ} (hv : validCell cc) {i j k : Int} (error : Slot)
+theorem Xq_pos {cc : Crystal ℝ} (hv : validCell cc) {i j k : Int} (h0 : ¬ (i = 0 ∧ j = 0 ∧ k = 0)) : 0 < Xq cc i j k :=
+  Xq_pos' hv.good h0
+
+/-- on a good cell the d-spacing is the value `dval` -/
+theorem dSpacing_good (v : Variant) {cc : Crystal ℝ} (hg : goodCell cc) {i j k : Int} (error : Slot)
     (hs : SafeMiller v i j k) (h0 : ¬ (i = 0 ∧ j = 0 ∧ k = 0)) :
     Crystal_dSpacing v (some cc) i j k error = .ok (dval cc i j k, error) := by
   rw [dSpacing_eval v cc error hs h0]
-  have hx := Xq_pos hv h0
-  obtain ⟨ha, hb, hc, _, _⟩ := hv
-  simp only [lit0] at ha hb hc
+  have hx := Xq_pos' hg h0
+  obtain ⟨ha, hb, hc, _⟩ := hg
   have h1 : ¬ (cc.a = 0 ∨ cc.b = 0 ∨ cc.c = 0 ∨ Xq cc i j k = 0) := by
     simp [ha.ne', hb.ne', hc.ne', hx.ne']
   have h2 : ¬ (1 / Xq cc i j k < 0) := not_lt.mpr (by positivity)
   rw [if_neg h1, if_neg h2]
+
+theorem dSpacing_valid (v : Variant) {cc : Crystal ℝ} (hv : validCell cc) {i j k : Int} (error : Slot)
+    (hs : SafeMiller v i j k) (h0 : ¬ (i = 0 ∧ j = 0 ∧ k = 0)) :
+    Crystal_dSpacing v (some cc) i j k error = .ok (dval cc i j k, error) :=
+  dSpacing_good v hv.good error hs h0
 
 theorem dval_pos {cc : Crystal ℝ} (hv : validCell cc) {i j k : Int} (h0 : ¬ (i = 0 ∧ j = 0 ∧ k = 0)) :
     0 < dval cc i j k := by
@@ -137,6 +154,68 @@ theorem dval_pos {cc : Crystal ℝ} (hv : validCell cc) {i j k : Int} (h0 : ¬ (
   unfold dval
   have : 0 < Real.sqrt (1 / Xq cc i j k) := Real.sqrt_pos.mpr (by positivity)
   positivity
+
+/-! ## inversion and scaling of the Miller indices -/
+
+theorem SafeMiller.neg {v : Variant} {i j k : Int} (h : SafeMiller v i j k) : SafeMiller v (-i) (-j) (-k) := by
+  rcases h with h | h
+  · exact Or.inl h
+  · right; unfold smallMiller at *; omega
+
+theorem dval_neg (cc : Crystal ℝ) (i j k : Int) : dval cc (-i) (-j) (-k) = dval cc i j k := by
+  unfold dval; rw [Xq_neg]
+
+theorem dSpacing_inversion (v : Variant) (cr : Option (Crystal ℝ)) {i j k : Int} (hs : SafeMiller v i j k) (error : Slot) :
+    Crystal_dSpacing v cr (-i) (-j) (-k) error = Crystal_dSpacing v cr i j k error := by
+  cases cr with
+  | none => rfl
+  | some cc =>
+    by_cases h0 : i = 0 ∧ j = 0 ∧ k = 0
+    · obtain ⟨rfl, rfl, rfl⟩ := h0; rfl
+    · have h0' : ¬ (-i = 0 ∧ -j = 0 ∧ -k = 0) := by simpa [neg_eq_zero] using h0
+      rw [dSpacing_eval v cc error hs h0, dSpacing_eval v cc error hs.neg h0', Xq_neg, dval_neg]
+
+theorem dval_scale (cc : Crystal ℝ) {n : Int} (hn : n ≠ 0) (i j k : Int) :
+    dval cc (n * i) (n * j) (n * k) = dval cc i j k / |(n : ℝ)| := by
+  unfold dval
+  rw [Xq_scale]
+  have hn' : (n : ℝ) ≠ 0 := by exact_mod_cast hn
+  have h2 : (0 : ℝ) ≤ (n : ℝ) ^ 2 := sq_nonneg _
+  have : 1 / ((n : ℝ) ^ 2 * Xq cc i j k) = 1 / Xq cc i j k / (n : ℝ) ^ 2 := by
+    rw [div_div, mul_comm]
+  rw [this, Real.sqrt_div' _ h2, Real.sqrt_sq_eq_abs]
+  ring
+
+theorem dSpacing_scale (v : Variant) (cr : Option (Crystal ℝ)) {n : Int} (hn : n ≠ 0) {i j k : Int}
+    (hs : SafeMiller v i j k) (hsn : SafeMiller v (n * i) (n * j) (n * k)) (error : Slot) :
+    Crystal_dSpacing v cr (n * i) (n * j) (n * k) error =
+      (Crystal_dSpacing v cr i j k error).map (fun p => (p.1 / |(n : ℝ)|, p.2)) := by
+  have hn' : (n : ℝ) ≠ 0 := by exact_mod_cast hn
+  cases cr with
+  | none =>
+    unfold Crystal_dSpacing
+    cases error <;> simp [setErr, Except.map]
+  | some cc =>
+    by_cases h0 : i = 0 ∧ j = 0 ∧ k = 0
+    · obtain ⟨rfl, rfl, rfl⟩ := h0
+      unfold Crystal_dSpacing
+      cases error <;> simp [setErr, Except.map]
+    · have h0' : ¬ (n * i = 0 ∧ n * j = 0 ∧ n * k = 0) := by
+        intro h; apply h0
+        exact ⟨(mul_eq_zero.mp h.1).resolve_left hn, (mul_eq_zero.mp h.2.1).resolve_left hn, (mul_eq_zero.mp h.2.2).resolve_left hn⟩
+      rw [dSpacing_eval v cc error hs h0, dSpacing_eval v cc error hsn h0', Xq_scale, dval_scale cc hn]
+      have hsq : (0 : ℝ) < (n : ℝ) ^ 2 := by positivity
+      have e1 : ((n : ℝ) ^ 2 * Xq cc i j k = 0) ↔ Xq cc i j k = 0 := by
+        constructor
+        · intro h; exact (mul_eq_zero.mp h).resolve_left hsq.ne'
+        · intro h; rw [h, mul_zero]
+      have e2 : (1 / ((n : ℝ) ^ 2 * Xq cc i j k) < 0) ↔ (1 / Xq cc i j k < 0) := by
+        rw [one_div_neg, one_div_neg]
+        constructor
+        · intro h; by_contra hc; exact absurd h (not_lt.mpr (mul_nonneg hsq.le (not_lt.mp hc)))
+        · intro h; exact mul_neg_of_pos_of_neg hsq h
+      simp only [e1, e2]
+      split_ifs <;> rfl
 
 end C13
 end Xrl
